@@ -92,6 +92,10 @@ def main(argv=None):
         return 3
     repo_root = load.REPO
     timeout_s = 10 if tier == "quick" else 40
+    if a.update_baseline:
+        # an obligation enters the baseline only if it discharges with HALF the solver budget: ordinary runs then have a
+        # factor-two margin, so verdicts do not flip on a loaded machine or with differently numbered fresh symbols
+        timeout_s = timeout_s / 2
     tasks = []
     for qual, con in sorted(pc.REGISTRY.items()):
         if con.trusted or prop not in con.props:
